@@ -79,6 +79,7 @@ void* make_data(const char* spec, int ty, size_t* n_out)
 		int kind; uint64_t seed, sb, ob; unsigned long nn;
 		sscanf(spec + 2, "%d:%" SCNx64 ":%lx:%" SCNx64 ":%" SCNx64, &kind, &seed, &nn, &sb, &ob);
 		n = nn; double scale, off; memcpy(&scale, &sb, 8); memcpy(&off, &ob, 8);
+		double k8 = off; if (kind == 8) off = 0;     /* kind 8 uses the offset field for its own parameters */
 		buf = (unsigned char*)malloc(n * es + 8);
 		uint64_t s = seed * 2654435761ULL + 12345; double w = 0;
 		for (size_t i = 0; i < n; i++) {
@@ -91,6 +92,22 @@ void* make_data(const char* spec, int ty, size_t* n_out)
 			case 4: v = (lcg(&s) % 50 == 0) ? (urand(&s) * 2 - 1) * 100.0 : sin((double)i * 0.02); break;
 			case 5: v = (i & 1) ? 1.0 : 0.0; break;
 			case 7: v = (urand(&s) < 0.5 ? -1.0 : 1.0) * ldexp(1.0 + urand(&s), (int)(urand(&s) * 40) - 20); break;   /* random sign, mantissa and 40 binades: nothing to predict, nothing to share */
+			case 8: /* one background value with a ripple well below one unit; one element in fifty dips or spikes by a whole number (1..70) of units:
+			           with a bound of one unit (= scale) the dense-value paths of the kernels and every quantisation code up to the edge get used */
+				v = 1000.0 + 0.2 * sin((double)i * 0.37);
+				{
+					/* off (otherwise unused here) = density * 2^20 + stride of the slowest dimension: the regression kernels work in blocks of 6 and
+					 * handle a block's last plane in a separate copy of the loop, so that plane gets three times its share of the outliers; depths sit
+					 * mostly just inside the edge of a 32- or 64-interval code range */
+					size_t dens = k8 >= 1048576.0 ? (size_t)(k8 / 1048576.0) : 50, stride = k8 >= 1048576.0 ? (size_t)fmod(k8, 1048576.0) : 0;
+					int last = stride ? ((i / stride) % 6 == 5) : 0;
+					if (lcg(&s) % (last ? (dens + 2) / 3 : dens) == 0) {
+						static const double edge[] = { 29, 30, 31, 61, 62, 63, 28, 32, 60, 64 };
+						double m = (lcg(&s) % 4) ? edge[lcg(&s) % 10] : (double)(1 + lcg(&s) % 70);
+						v += (lcg(&s) % 3) ? -m : m;
+					}
+				}
+				break;
 			default: v = 1.0; break;
 			}
 			v = v * scale + off;
@@ -566,12 +583,26 @@ static void snap(void)
 	print_shex(c->gzipMode); printf(",%x,%x,%x,%x,%x,%" PRIx64 ",%" PRIx64 ",%" PRIx64 ",%x;%x,%x,%x,%x|", c->sampleDistance, fbits(c->predThreshold), c->protectValueRange, c->max_quant_intervals,
 	       c->errorBoundMode, ab, rb, pb, dataEndianType, exe_params->optQuantMode, exe_params->intvCapacity, exe_params->intvRadius, exe_params->SZ_SIZE_TYPE);
 }
-/* hist <cfg> <op/op/...> <observed op>
+/* hist <cfg> <op/op/...> <observed op> [<interposed compression>]
  * ops: c:<ty>:<mode>:<abs bits>:<rel bits>:<pwr bits>:<dims>:<kind>:<seed>:<scale bits>   compress (stream kept)
  *      d:<k> decompress stream k   m:<k> metadata query on stream k   f finalise and re-initialise with the same configuration
  * after every op the configuration part of the globals and exe_params are printed; finally the observed compression is
  * done and decompressed and the digests of its stream and reconstruction are printed. */
 #define MAXS 64
+/* a compression of other data between the observed compression and the decompression of its stream ("compression and decompression of
+ * different data may be freely alternated") */
+static void hist_interpose(const char* t)
+{
+	int ty, mode = 0, kind; uint64_t ab = 0, rb = 0, pb = 0, seed, sb; char dims[128];
+	if (sscanf(t, "c:%x:%x:%" SCNx64 ":%" SCNx64 ":%" SCNx64 ":%127[^:]:%d:%" SCNx64 ":%" SCNx64, &ty, &mode, &ab, &rb, &pb, dims, &kind, &seed, &sb) != 9) return;
+	size_t r[5]; parse_dims(dims, r); size_t n = computeDataLength(r[0], r[1], r[2], r[3], r[4]);
+	char spec[256]; double sc; memcpy(&sc, &sb, 8); double off = (mode == PW_REL) ? 3.0 * sc : 0.0; uint64_t ob; memcpy(&ob, &off, 8);
+	snprintf(spec, sizeof spec, "g:%d:%" PRIx64 ":%zx:%" PRIx64 ":%" PRIx64, kind, seed, n, sb, ob);
+	size_t nn; void* data = make_data(spec, ty, &nn);
+	double absb, rel, pwr; memcpy(&absb, &ab, 8); memcpy(&rel, &rb, 8); memcpy(&pwr, &pb, 8);
+	size_t os = 0; unsigned char* b = SZ_compress_args(ty, data, &os, mode, absb, rel, pwr, r[0], r[1], r[2], r[3], r[4]);
+	if (b) free(b); free(data);
+}
 static void op_hist(int argc, char** a)
 {
 	if (init_from_cfg(a[0]) != SZ_SCES) { printf("st=init-failed\n"); return; }
@@ -606,6 +637,7 @@ static void op_hist(int argc, char** a)
 					for (size_t i = 0; b && i < os; i++) { if (ty >= 2 && !wrapped && i >= 24 && i < 32) continue; hm ^= b[i]; hm *= 1099511628211ULL; }
 					printf(" out=%zx sdig=%" PRIx64 " smdig=%" PRIx64 " wrapped=%d", os, h, hm, wrapped); fflush(R);
 					if (getenv("SZV_DUMP") && b) { FILE* df = fopen(getenv("SZV_DUMP"), "wb"); if (df) { fwrite(b, 1, os, df); fclose(df); } }
+					if (argc > 3 && a[3][0] == 'c') hist_interpose(a[3]);
 					void* dec = b ? SZ_decompress(ty, b, os, r[0], r[1], r[2], r[3], r[4]) : NULL;
 					uint64_t g = 1469598103934665603ULL; for (size_t i = 0; dec && i < nn * elem_size(ty); i++) { g ^= ((unsigned char*)dec)[i]; g *= 1099511628211ULL; }
 					double mn, mx; double e = effective_bound(ty, data, nn, mode, absb, rel, &mn, &mx); struct errstat st;
